@@ -575,11 +575,13 @@ func (a *Emitter) EmitBytes(b []byte) {
 			s.Write([]byte{'$', hextable[(v>>4)&0xF], hextable[v&0xF]})
 			if i&15 == 15 {
 				cl.ins = s.String()
+				cl.byteCount = 16
 				a.lines = append(a.lines, cl)
 				s.Reset()
 				s.WriteString("db ")
 				cl.ins = ""
 				cl.address = a.address + uint32(i) + 1
+				cl.byteCount = blen - (i + 1)
 			} else if i < blen-1 {
 				s.Write([]byte{',', ' '})
 				continue
